@@ -48,20 +48,6 @@ def isC09Op : Op → Bool
   | .transferOwner .. => true
   | _ => false
 
-/-- the class of F-tok-1: an edit that sets a maximum while the circulating amount is not a whole
-number of main units (`EditToken` floors the supply before comparing) -/
-def inFTok1 (s : State) : Op → Bool
-  | .edit _ symbol _ max _ =>
-    match tokenBySymbol s symbol with
-    | some t => decide (0 < max) && decide (supplyOf s t.minUnit % pow10 t.scale ≠ 0)
-    | none => false
-  | _ => false
-
-/-- no operation of the history falls into the class of F-tok-1 at the state it is applied to -/
-def noFTok1 : State → List Op → Prop
-  | _, [] => True
-  | s, op :: rest => inFTok1 s op = false ∧ noFTok1 (apply s op) rest
-
 /-- Σ of the amounts of the accepted burns of `d` in a history -/
 def burnSum (d : String) : State → List Op → Nat
   | _, [] => 0
@@ -166,7 +152,6 @@ def acceptedFails (pre : State) (op : Op) (post : State) : List Fail :=
       chk (burnedSameExcept pre post []) "edit-burned-tally" ++
       -- the maximum can never be lowered below what circulates
       chk (max == 0 || decide (sup ≤ max * pow10 t.scale)) "edit-max-below-circulating"
-        (if decide (sup / pow10 t.scale ≤ max) && decide (sup % pow10 t.scale ≠ 0) then "F-tok-1" else "")
   | .mint owner to denom amount =>
     match tokenByMinUnit pre denom with
     | none => chk false "mint-token-exists"
